@@ -571,7 +571,13 @@ def run(ctx):
     nmax = 60 if quick else 420
     chunk = 1000
     done = 0
+    import time as _time
+    _t0 = _time.time()
+    _budget = float(os.environ.get('VERIF_THOROUGH_BUDGET_S', '1500'))    # wall-clock budget of the random stream (thorough tier)
     while done < n:
+        if not quick and _time.time() - _t0 > _budget:
+            ctx.notes.append('random stream stopped after %d of %d cases: wall-clock budget of %.0f s (VERIF_THOROUGH_BUDGET_S) used up' % (done, n, _budget))
+            break
         m = min(chunk, n - done)
         cases = []
         for i in range(m):
